@@ -17,6 +17,10 @@ REG = {
    text="Theorems in coq/Properties/C04.v about a Gallina model of rolling.rs/checksum.rs/generator.rs/applier.rs: rolling checksum = direct checksum after any roll sequence (u32 arithmetic modelled), copy ops in range (unconditional), reconstruction for both generators for all old/new/block sizes (relative to a non-colliding strong hash; closed for the identity instance), wire transparency relative to codec round-trip laws. Tied to the code by differential runs of the extracted model against the real library and sy-remote, and by constants regenerated from the source.",
    note="xxh3/serde_json/zstd are oracles with stated laws; full reads on regular files. All theorems closed under the global context.",
    technique="Rocq proof (loop invariants by induction) + extracted-model differential correspondence"),
+ "C13": dict(
+   text="coq/Properties/C13.v over Model/Hardlink.v, a small-step interleaving machine of the owner/waiter hand-off in Transferrer::create (map states, Notify as an epoch counter, every `?` exit): the full termination claim is refuted by two deadlock witnesses (failed first copy leaves InProgress behind = C13-KF1; lost wake-up between reading InProgress and creating the Notified future = C13-KF2); proved: for every schedule of any length of up to 4 workers, without failing operations and without the read/register gap, no state is stuck and every finished run has exactly one copier with all others hard-linked to it (reachable sets enumerated by the kernel, closure checked by computation, lifted to all schedules by a closure lemma). Tie: end-to-end runs of the real binary with -H over link-group partitions and -j1..16 (create, re-run, update), inode classes vs the source, termination by a wall-clock bound, and a natural owner-failure fault.",
+   note="Partial: the interleaving model is not driven against the implementation step by step (schedule-point hooks H3/H4 were not built), so the tie is end-to-end only; tokio's Notify semantics and scheduler fairness are hypotheses; the bound of 4 workers is part of the theorem statements.",
+   technique="Rocq proof (finite reachable-set enumeration by vm_compute + closure lemma; deadlock witnesses) + end-to-end runs"),
  "C14": dict(
    text="coq/Properties/C14.v: the sender's decision function never selects LZ4 (the helper only recognises the zstd magic); for every decision (size, extension, content sample, override) the SFTP/helper pipeline delivers exactly the original bytes, incl. empty, incompressible and magic-prefixed inputs -- relative to the zstd laws (theorem named _partial); raw helper payloads without the magic are written as they are; sparse transfers: for every extent layout whose holes read as zeros, receive_sparse(len, detect ext, pack f (detect ext)) = f (induction over the layout), short streams rejected. Tie: real `sy-remote receive-file`/`receive-sparse-file` over stdin with payload families (over pre-existing non-zero destination content), both codecs round-tripped, should_compress_smart vs the model's table, detect_data_regions vs the model fed with the kernel's extent map read by SEEK_DATA/SEEK_HOLE.",
    note="Partial: decompress(compress x) = x for zstd/lz4 is a hypothesis (external C/Rust libraries; exercised on the payload corpus only); the SSH transport itself cannot run (no sshd) -- only the helper binary and the sender's pure logic are covered.",
